@@ -18,6 +18,9 @@ from .. import cfg, rules, flow
 from ..cfg import expr_operand, nshow, peel, graph, walk
 
 Q = r"^radicle::git::canonical::Canonical::quorum$"
+# an element taken from the candidate map: the first one, or the item of a loop over its keys / entries
+CAND_LOOP_ITEM = r"Keys|keys\(|btree::map::Iter<|BTreeMap::iter\(|btree::map::IntoIter|BTreeMap::into_keys\("
+CAND_ITEM = r"pop_first|first_key_value|" + CAND_LOOP_ITEM
 
 
 def run(ctx):
@@ -107,7 +110,7 @@ def run(ctx):
             for d in g.defs().get(r_[0], []):
                 if d[0] == "stmt":
                     src.add(nshow(cfg.expr_rvalue(fn, d[3]))[:200])
-        okr = bool(src) and all(("pop_first" in x or "Keys" in x or "keys(" in x) for x in src)
+        okr = bool(src) and all(re.search(CAND_ITEM, x) for x in src)
         ctx.check("ret:running-head", okr, "the head returned is the running candidate (first eligible candidate, advanced over the other eligible ones)",
                   rules.where(fn, bb), detail=sorted(src)[:3], fn=fn)
     nc = [bb for bb, j, k, ops in rules.agg_sites(fn, r"canonical::QuorumError$", "NoCandidates")]
@@ -120,7 +123,7 @@ def run(ctx):
     adv = []
     if run_local is not None:
         for d in g.defs().get(run_local, []):
-            if d[0] == "stmt" and "Keys" in nshow(cfg.expr_rvalue(fn, d[3])):
+            if d[0] == "stmt" and re.search(CAND_LOOP_ITEM, nshow(cfg.expr_rvalue(fn, d[3]))):
                 adv.append(d[1])
 
     def base_is_running(f):
@@ -157,3 +160,17 @@ def run(ctx):
     # the divergence arm is the fall-through of the two equality tests: no path from the loop's merge_base to the next iteration skips all three arms
     mb = [bb for bb, t, c in db.calls(fn) if (c.get("n") or "").endswith("Repository::merge_base")]
     ctx.floor("quorum:merge_base", len(mb), 2, "merge_base computations (vote counting, head selection)")
+    # every remaining candidate is classified: no iteration of the selection loop goes back to the loop header without the
+    # merge-base comparison with the running head (a candidate that is skipped can neither advance the head nor make the
+    # result Diverging)
+    sel = [bb for bb in mb if adv and any(g.dominates(bb, a) for a in adv)]
+    hdr = [bb for bb, t, c in db.calls(fn) if re.search(r"Iterator>?::next$", c.get("n") or "") and sel and any(bb in g.reach([x]) and x in g.reach([bb]) for x in sel)]
+    if not sel or len(hdr) != 1:
+        ctx.ob("classify:complete", "inconclusive", "the head-selection loop was not recognised (%d merge_base in it, %d loop headers)" % (len(sel), len(hdr)), rules.where(fn), fn=fn)
+    else:
+        some = rules.edges_where(db, fn, lambda f: f[0] == "variant" and f[4] and f[3] == "Some" and "::next(" in nshow(f[1]))
+        some = [e for e in some if e[0] in g.reach([hdr[0]]) and hdr[0] in g.reach([e[0]])]
+        ok, nfeas, bad = rules.pass_check(db, fn, some, sel, hdr)
+        ctx.check("classify:complete", ok and nfeas >= 1,
+                  "every candidate that passed the threshold is compared with the running head (none is skipped): a skipped candidate that diverges "
+                  "from the head is not reported as Diverging", rules.where(fn, sel[0]), detail={"path": bad[:1]}, fn=fn)
